@@ -103,6 +103,8 @@ func cmdVC(args []string) int {
 	timeout := fs.Int("timeout", 10000, "solver timeout ms")
 	only := fs.String("only", "", "regexp on obligation names")
 	ssaDump := fs.Bool("ssa", false, "print SSA")
+	verbose := fs.Bool("v", false, "verbose")
+	failing := fs.Bool("f", false, "only failing")
 	fs.Parse(args)
 	p, err := LoadProgram(*repo)
 	if err != nil {
@@ -147,12 +149,28 @@ func cmdVC(args []string) int {
 		}
 		results := solveAll(obls, scripts, vnames, dir, *timeout, false)
 		for _, r := range results {
+			okr := r.R.Status == "unsat" && !r.O.Cover || r.O.Cover && r.R.Status == "sat"
+			if *failing && okr {
+				continue
+			}
+			if !*verbose {
+				fmt.Printf("%-8s %-7s %6dms %s  [%s]\n", r.R.Status, r.R.Solver, r.R.Ms, strings.TrimPrefix(r.O.Name, key), r.O.Pos)
+				if !okr && r.O.Src != "" {
+					fmt.Printf("         src: %s\n", r.O.Src)
+				}
+				continue
+			}
 			fmt.Printf("%-8s %-7s %6dms %s  [%s] %s\n", r.R.Status, r.R.Solver, r.R.Ms, r.O.Name, r.O.Pos, strings.Join(r.R.Tried, " "))
 			if r.R.Status != "unsat" && r.O.Src != "" {
 				fmt.Printf("         src: %s\n", r.O.Src)
 			}
 			if r.R.Status == "error" || r.R.Status == "unknown" {
 				fmt.Printf("         out: %s\n", firstLines(r.R.Output, 4))
+			}
+			if r.R.Status != "unsat" && !r.O.Cover {
+				if rr := tryReplay(p, r, "/tmp"); rr != nil {
+					fmt.Printf("         replay: confirmed=%v inputs=%v real=%v model=%v (%v)\n", rr["confirmed"], rr["inputs"], rr["real_outputs"], rr["model_outputs"], rr["reason"])
+				}
 			}
 		}
 		for _, n := range res.Exec.notes {
@@ -524,4 +542,8 @@ func writeReplay(verif, prop string, r *oblResult, p *Program) replayInfo {
 	data, _ := json.MarshalIndent(rep, "", " ")
 	os.WriteFile(path, data, 0o644)
 	return info
+}
+
+func init() {
+	debugLoops = os.Getenv("GOVC_DEBUG") != ""
 }
